@@ -313,10 +313,13 @@ EffectPresent(cfg, s, e) ==
     ELSE IF e.api = "ensure" \/ (e.api = "gou" /\ Has(cur, "judge") /\ cur.judge = "promote") THEN
         (\E r \in Roots(cfg) : r.role = "w") =>
             \E d \in DOMAIN s.fs.ents : IsWCacheDir(cfg, d) /\ cur.key \in DOMAIN s.fs.ents[d]
+    \* (a Replace whose judge was never consulted -- the lookup saw no hit, e.g. because the faulted open said "gone" -- is a miss:
+    \* insert-if-absent, like ensure)
     ELSE IF e.api = "gou" /\ Has(cur, "judge") /\ cur.judge = "replace" /\ Has(cur, "val") THEN
         (\E r \in Roots(cfg) : r.role = "w") =>
             \E d \in DOMAIN s.fs.ents : IsWCacheDir(cfg, d) /\ cur.key \in DOMAIN s.fs.ents[d] /\
-                LET i == s.fs.ents[d][cur.key] IN i \in DOMAIN s.fs.inos /\ ValueFor(s.fs.inos[i].c, cur.key) /\ s.fs.inos[i].c.val = cur.val
+                LET i == s.fs.ents[d][cur.key] IN i \in DOMAIN s.fs.inos /\ ValueFor(s.fs.inos[i].c, cur.key) /\
+                    (Has(e, "judge") => s.fs.inos[i].c.val = cur.val)
     ELSE TRUE
 FaultOK(cfg, s, e) ==
     e.e = "ret" /\ e.p \in DOMAIN s.cur /\ ~(Has(e, "world") /\ e.world) /\ FaultedOp(s, e) =>
